@@ -128,17 +128,20 @@ static int init_websocket_peer(struct websocket_peer *ws_peer, struct http_conne
 {
 	static const char *sub_protocol = "jet";
 
-	init_peer(&ws_peer->peer, is_local_connection, connection->server->ev.loop);
+	if (unlikely(init_peer(&ws_peer->peer, is_local_connection, connection->server->ev.loop) < 0)) {
+		return -1;
+	}
 	ws_peer->peer.send_message = ws_send_message;
 	ws_peer->peer.close = peer_close_websocket_peer;
 
-	struct buffered_reader *br = &connection->br;
-	br->set_error_handler(br->this_ptr, free_websocket_peer_on_error, ws_peer);
-
 	int ret = websocket_init(&ws_peer->websocket, connection, true, free_websocket_peer_callback, sub_protocol);
 	if (ret < 0) {
+		free_peer_resources(&ws_peer->peer);
 		return -1;
 	}
+
+	struct buffered_reader *br = &connection->br;
+	br->set_error_handler(br->this_ptr, free_websocket_peer_on_error, ws_peer);
 	ws_peer->websocket.text_message_received = text_message_callback;
 	ws_peer->websocket.close_received = close_callback;
 	ws_peer->websocket.pong_received = pong_received;
@@ -155,5 +158,11 @@ int alloc_websocket_peer(struct http_connection *connection)
 	}
 
 	connection->parser.data = &ws_peer->websocket;
-	return init_websocket_peer(ws_peer, connection, connection->is_local_connection);
+	int ret = init_websocket_peer(ws_peer, connection, connection->is_local_connection);
+	if (unlikely(ret < 0)) {
+		/* A peer that could not be initialised is not put into service. */
+		connection->parser.data = NULL;
+		cjet_free(ws_peer);
+	}
+	return ret;
 }
